@@ -260,6 +260,38 @@ def h_kink(ctx, fname, D, P, n):
                 ctx.eq(Z[d, p, i], ref, '%s[%d,%d,%d]' % (fname, d, p, i))
 
 
+def h_pairs(ctx, which, D, P):
+    """methods that return two functions at once: x.sincos(), x.sinhcosh(), x.tansec2()"""
+    algopy = symx.load_algopy()
+    first, second = {'sincos': ('sin', 'cos'), 'sinhcosh': ('sinh', 'cosh'), 'tansec2': ('tan', None)}[which]
+    X = np.empty((D, P), dtype=object if ctx.mode == 'sym' else float)
+    info = {}
+    for p in range(P):
+        x0, ex = x0_for(ctx, first, 'p%d' % p)
+        X[0, p] = x0
+        info[p] = ex
+        for d in range(1, D):
+            X[d, p] = ctx.var('x%d_p%d' % (d, p))
+    x = mk_utpm(ctx, algopy, X)
+    try:
+        a, b = getattr(x, which)()
+    except Exception as e:
+        ctx.fact(False, 'x.%s() raised %s: %s' % (which, type(e).__name__, str(e)[:80]))
+        return
+    A, B = data_of(ctx, algopy, a, (D, P)), data_of(ctx, algopy, b, (D, P))
+    for p in range(P):
+        xs = [X[d, p] for d in range(D)]
+        ra = lib.compose(derivs(ctx, first, xs[0], D - 1, {}, info[p]), xs, D)
+        if second is not None:
+            rb = lib.compose(derivs(ctx, second, xs[0], D - 1, {}, info[p]), xs, D)
+        else:
+            sq = lib.ps_mul(ra, ra, D)
+            rb = [sq[d] + (1 if d == 0 else 0) for d in range(D)]        # sec^2 = 1 + tan^2
+        for d in range(D):
+            ctx.eq(A[d, p], ra[d], '%s()[0][%d,%d]' % (which, d, p))
+            ctx.eq(B[d, p], rb[d], '%s()[1][%d,%d]' % (which, d, p))
+
+
 def h_int_typed(ctx, fname):
     """coefficient array of integer dtype (a real-valued polynomial whose coefficients happen to be
     whole numbers, e.g. UTPM(numpy.array([[[1, 2]], [[3, 4]], [[5, 6]]]))): same result as for the
@@ -345,6 +377,8 @@ def units(tier, seed):
     add('pow_utpm/D%d,P2' % min(powD, 5), 'h_pow_utpm', D=min(powD, 5), P=2)
     for fname in ['exp', 'sin', 'sqrt', 'reciprocal', 'square', 'tanh', 'erf', 'log']:
         add('integer-typed coefficient array/%s' % fname, 'h_int_typed', fname=fname)
+    for which in ('sincos', 'sinhcosh', 'tansec2'):
+        add('%s() method/D4,P2' % which, 'h_pairs', which=which, D=4, P=2)
     kD = 3 if tier == 'quick' else 4
     for fname in ['absolute', 'abs', 'sign', 'minimum', 'maximum', 'clip']:
         add('%s/D%d,P1,n2' % (fname, kD), 'h_kink', fname=fname, D=kD, P=1, n=2)
